@@ -514,7 +514,7 @@ amount_t& amount_t::operator/=(const amount_t& amt)
       throw_(amount_error, _("Cannot divide two uninitialized amounts"));
   }
 
-  if (! amt)
+  if (amt.is_realzero())
     throw_(amount_error, _("Divide by zero"));
 
   _dup();
